@@ -18,19 +18,18 @@ open Retro
 /-- `u32::MAX + 1`. A macro, so that the literal itself appears in terms (`omega` sees it). -/
 local macro "U32" : term => `((4294967296 : Nat))
 
-/-! ### u32 arithmetic in the debug profile -/
+/-! ### u32 arithmetic in the debug profile
+
+Used where the Rust code still computes in `u32`: `Buf2::new`'s `w * h` and the `x + 1` of the
+range-form conversion in rect.rs. `Inner::new` and `to_index` compute in `usize` (since 7b7718a):
+with `u32` operands on a 64-bit target that cannot overflow, in either profile, so they are plain
+`Nat` arithmetic below. -/
 
 def mulU32 (a b : Nat) : Outcome Nat :=
   if a * b < U32 then .ok (a * b) else .panic "attempt to multiply with overflow"
 
 def addU32 (a b : Nat) : Outcome Nat :=
   if a + b < U32 then .ok (a + b) else .panic "attempt to add with overflow"
-
-/-- `a * b + c` in `u32`: the multiplication is checked first, then the addition. -/
-def mulAddU32 (a b c : Nat) : Outcome Nat :=
-  match mulU32 a b with
-  | .panic m => .panic m
-  | .ok p => addU32 p c
 
 /-! ### Views -/
 
@@ -49,8 +48,9 @@ def isContiguous (v : View) : Bool := v.stride == v.w || decide (v.h ≤ 1) || v
 /-- buf.rs:402-404 `is_empty`. -/
 def isEmpty (v : View) : Bool := v.w == 0 || v.h == 0
 
-/-- buf.rs:409-411 `to_index`: `(y * self.stride + x) as usize`, in `u32`. -/
-def toIndex (v : View) (x y : Nat) : Outcome Nat := mulAddU32 y v.stride x
+/-- buf.rs:409-411 `to_index`: `y as usize * self.stride as usize + x as usize`. Cannot overflow
+(`u32` operands, 64-bit `usize`); kept as an `Outcome` so that callers read like the Rust code. -/
+def toIndex (v : View) (x y : Nat) : Outcome Nat := .ok (y * v.stride + x)
 
 /-- buf.rs:427-430 `to_index_checked`. -/
 def toIndexChecked (v : View) (x y : Nat) : Outcome (Option Nat) :=
@@ -67,16 +67,14 @@ def toIndexStrict (v : View) (x y : Nat) : Outcome Nat :=
   | .ok (some i) => .ok i
   | .ok none => .panic "position out of bounds"
 
-/-- buf.rs:484-504 `Inner::new(dims, stride, data)` with `data.len() = len`: the four assertions. -/
+/-- buf.rs:484-505 `Inner::new(dims, stride, data)` with `data.len() = len`: the four assertions. -/
 def innerNew (w h stride len : Nat) : Outcome Unit :=
   if ¬ w ≤ stride then .panic "width > stride"
   else if ¬ (h ≤ 1 ∨ stride ≤ len) then .panic "stride > data length"
   else if ¬ (w = 0 ∨ h ≤ len) then .panic "height > data length"
   else if 0 < h then
-    -- `let size = (h - 1) * stride + w;` in u32
-    match mulAddU32 (h - 1) stride w with
-    | .panic m => .panic m
-    | .ok size => if size ≤ len then .ok () else .panic "required size > data length"
+    -- buf.rs:497-502 `let size = (h as usize - 1) * stride as usize + w as usize; assert!(size <= len)`
+    if (h - 1) * stride + w ≤ len then .ok () else .panic "required size > data length"
   else .ok ()
 
 /-- `Slice2::new` / `MutSlice2::new` (buf.rs:229, 239) over a slice of `n` elements:
@@ -198,7 +196,7 @@ def sliceRangeCheck (len start stop : Nat) : Outcome Unit :=
   else if start > stop then .panic "slice index starts at a greater index than it ends"
   else .ok ()
 
-/-- buf.rs:520-523 `slice` and buf.rs:642-645 `slice_mut`: `resolve_bounds`, re-borrow
+/-- buf.rs:521-524 `slice` and buf.rs:643-646 `slice_mut`: `resolve_bounds`, re-borrow
 `&self.data[rg]`, `Inner::new(dims, self.stride, …)`. -/
 def slice (v : View) (rc : Rect) : Outcome View :=
   match resolveBounds v rc with
@@ -211,7 +209,7 @@ def slice (v : View) (rc : Rect) : Outcome View :=
       | .panic m => .panic m
       | .ok () => .ok { w := w', h := h', stride := v.stride, off := v.off + start, len := stop - start }
 
-/-- buf.rs:512-514 / 553-555 `as_slice2` / `as_mut_slice2`: `Slice2::new(self.dims, self.stride, &self.data)`. -/
+/-- buf.rs:513-515 / 554-556 `as_slice2` / `as_mut_slice2`: `Slice2::new(self.dims, self.stride, &self.data)`. -/
 def asSlice (v : View) : Outcome View :=
   match innerNew v.w v.h v.stride v.len with
   | .panic m => .panic m
@@ -235,7 +233,7 @@ def dataAt (root : List α) (v : View) (i : Nat) : Outcome α :=
   | some a => .ok a
   | none => .panic "index out of bounds"
 
-/-- buf.rs:527-530 `get`. -/
+/-- buf.rs:528-531 `get`. -/
 def get (root : List α) (v : View) (x y : Nat) : Outcome (Option α) :=
   match toIndexChecked v x y with
   | .panic m => .panic m
@@ -245,13 +243,13 @@ def get (root : List α) (v : View) (x y : Nat) : Outcome (Option α) :=
     | .ok a => .ok (some a)
     | .panic m => .panic m
 
-/-- buf.rs:700-703 `Index<Pos>`: `&self.data[self.to_index_strict(x, y)]`. -/
+/-- buf.rs:701-704 `Index<Pos>`: `&self.data[self.to_index_strict(x, y)]`. -/
 def indexPt (root : List α) (v : View) (x y : Nat) : Outcome α :=
   match toIndexStrict v x y with
   | .panic m => .panic m
   | .ok i => dataAt root v i
 
-/-- buf.rs:658-664 `Index<usize>` (and 679-685 `IndexMut<usize>`):
+/-- buf.rs:659-665 `Index<usize>` (and 680-686 `IndexMut<usize>`):
 `to_index_strict(0, u32::try_from(i).unwrap_or(u32::MAX))` then `&self.data[idx..][..w]`,
 as the window `(start, length)` inside the view's data. -/
 def rowWindow (v : View) (i : Nat) : Outcome (Nat × Nat) :=
@@ -267,7 +265,7 @@ def readRange (root : List α) (v : View) (start n : Nat) : Outcome (List α) :=
   let r := ((viewData root v).drop start).take n
   if r.length = n then .ok r else .panic "model: view exceeds its root storage"
 
-/-- buf.rs:658-664 `Index<usize>`. -/
+/-- buf.rs:659-665 `Index<usize>`. -/
 def rowIndex (root : List α) (v : View) (i : Nat) : Outcome (List α) :=
   match rowWindow v i with
   | .panic m => .panic m
@@ -290,7 +288,7 @@ def rowStartsOf (w : Nat) : List (Nat × Nat) → Outcome (List Nat)
       | .panic m => .panic m
     else .panic "range end index out of range"
 
-/-- buf.rs:535-540 / 565-570 `rows` / `rows_mut`:
+/-- buf.rs:536-541 / 566-571 `rows` / `rows_mut`:
 `data.chunks(stride.max(1)).take(h).map(|row| &row[..w])`, as the start index of every row. -/
 def rowWindows (v : View) : Outcome (List Nat) :=
   rowStartsOf v.w ((chunkWindows (max v.stride 1) v.len 0 v.len).take v.h)
@@ -305,13 +303,13 @@ def readRows (root : List α) (v : View) : List Nat → Outcome (List (List α))
       | .panic m => .panic m
       | .ok rs => .ok (r :: rs)
 
-/-- buf.rs:535-540 `rows`, fully consumed. -/
+/-- buf.rs:536-541 `rows`, fully consumed. -/
 def rows (root : List α) (v : View) : Outcome (List (List α)) :=
   match rowWindows v with
   | .panic m => .panic m
   | .ok starts => readRows root v starts
 
-/-- buf.rs:546-548 `iter`: `self.rows().flatten()`. -/
+/-- buf.rs:547-549 `iter`: `self.rows().flatten()`. -/
 def iter (root : List α) (v : View) : Outcome (List α) :=
   match rows root v with
   | .panic m => .panic m
@@ -329,13 +327,13 @@ def dataSet (root : List α) (v : View) (i : Nat) (a : α) : Outcome (List α) :
   if i < v.len ∧ v.off + i < root.length then .ok (root.set (v.off + i) a)
   else .panic "index out of bounds"
 
-/-- buf.rs:716-720 `IndexMut<Pos>`: `self[pos] = a`. -/
+/-- buf.rs:717-721 `IndexMut<Pos>`: `self[pos] = a`. -/
 def setPoint (root : List α) (v : View) (x y : Nat) (a : α) : Outcome (List α) :=
   match toIndexStrict v x y with
   | .panic m => .panic m
   | .ok i => dataSet root v i a
 
-/-- buf.rs:632-636 `get_mut(pos)` followed by an assignment through the reference if it is `Some`.
+/-- buf.rs:633-637 `get_mut(pos)` followed by an assignment through the reference if it is `Some`.
 `none` = the call returned `None` and nothing was written. -/
 def getMutSet (root : List α) (v : View) (x y : Nat) (a : α) : Outcome (Option (List α)) :=
   match toIndexChecked v x y with
@@ -346,7 +344,7 @@ def getMutSet (root : List α) (v : View) (x y : Nat) (a : α) : Outcome (Option
     | .ok r => .ok (some r)
     | .panic m => .panic m
 
-/-- buf.rs:679-685 `IndexMut<usize>` then element `j` of the row: `self[i][j] = a`. -/
+/-- buf.rs:680-686 `IndexMut<usize>` then element `j` of the row: `self[i][j] = a`. -/
 def rowSet (root : List α) (v : View) (i j : Nat) (a : α) : Outcome (List α) :=
   match rowWindow v i with
   | .panic m => .panic m
@@ -372,7 +370,7 @@ def rowsMutWrite (root : List α) (v : View) (vals : Nat → List α) : Outcome 
     | .panic m => .panic m
     | .ok starts => .ok (writeRows root v.off starts ((List.range starts.length).map vals))
 
-/-- buf.rs:579-591 `fill`: one `slice::fill` over `data[..w*h]` when contiguous, else row by row. -/
+/-- buf.rs:580-592 `fill`: one `slice::fill` over `data[..w*h]` when contiguous, else row by row. -/
 def fill (root : List α) (v : View) (a : α) : Outcome (List α) :=
   if isContiguous v then
     if ¬ viewFits root v then .panic "model: view exceeds its root storage"
@@ -380,11 +378,11 @@ def fill (root : List α) (v : View) (a : α) : Outcome (List α) :=
     else .panic "range end index out of range"
   else rowsMutWrite root v (fun _ => List.replicate v.w a)
 
-/-- buf.rs:596-605 `fill_with`: `f(x, y)` row-major. -/
+/-- buf.rs:597-606 `fill_with`: `f(x, y)` row-major. -/
 def fillWith (root : List α) (v : View) (f : Nat → Nat → α) : Outcome (List α) :=
   rowsMutWrite root v (fun y => (List.range v.w).map (fun x => f x y))
 
-/-- buf.rs:614-628 `copy_from(other)`: `other.as_slice2()`, dims assertion, `rows_mut().zip(other.rows())`. -/
+/-- buf.rs:615-629 `copy_from(other)`: `other.as_slice2()`, dims assertion, `rows_mut().zip(other.rows())`. -/
 def copyFrom (root : List α) (v : View) (srcRoot : List α) (src : View) : Outcome (List α) :=
   match asSlice src with
   | .panic m => .panic m
